@@ -532,6 +532,48 @@ func (c *Conn) RunCheckpoint(spec CheckpointSpec) (res TxResult) {
 	return res
 }
 
+// CloseLast does what closing the LAST connection of a WAL-mode database does
+// (sqlite3WalClose): checkpoint everything, delete the log and the shared-memory
+// file, release the locks. The connection is closed afterwards.
+func (c *Conn) CloseLast() (res TxResult) {
+	d := c.D
+	fail := func(step string, err error) TxResult {
+		res.Err, res.ErrStep = err, step
+		return res
+	}
+	if !d.WALMode || c.wal == nil {
+		c.Close()
+		return res
+	}
+	// (sqlite3WalClose: a PASSIVE checkpoint under the exclusive lock - it backfills
+	// everything as nobody else is connected - and then the log is deleted, not
+	// truncated)
+	if r := c.RunCheckpoint(CheckpointSpec{Kind: "passive"}); r.Err != nil {
+		return fail("close-ckpt/"+r.ErrStep, r.Err)
+	}
+	if c.wal != nil {
+		c.wal.Close(c.Owner)
+		c.wal = nil
+	}
+	if err := d.step("remove wal"); err != nil {
+		return fail("close-rm-wal", err)
+	}
+	if err := d.N.Remove(d.Name + "-wal"); err != nil && drv.Errno(err) != syscall.ENOENT {
+		return fail("close-rm-wal", err)
+	}
+	if c.shm != nil {
+		c.shm.Close(c.Owner)
+		c.shm = nil
+	}
+	if err := d.N.Remove(d.Name + "-shm"); err != nil && drv.Errno(err) != syscall.ENOENT {
+		return fail("close-rm-shm", err)
+	}
+	d.WalEnd, d.Backfilled, d.WalContent, d.W = 0, true, map[uint32][]byte{}, nil
+	c.readMark = -1
+	c.Close()
+	return res
+}
+
 // SwitchToRollback does what `PRAGMA journal_mode=<mode>` does on a WAL-mode
 // database with a single connection: checkpoint everything, close and delete
 // the shared-memory file and the log, then rewrite page 1 (file-format
